@@ -56,9 +56,21 @@ WHAT_UNEQUAL = ("Lens with quad_npts_theta != quad_npts_phi: the wrapped theory'
                 "multiplied by the matrix of another direction; the field is wrong by O(1)")
 
 
+FB = 80
+
+
+def ql(x):
+    """leaf literal with the common denominator 2^80 (exact for every double of magnitude >= 2^-27, otherwise rounded
+    at 2^-80 ~ 8e-25): lets the QF instance add without multiplying denominators.  Decisions use the exact qlit."""
+    fr = Fraction(float(x))
+    n = fr.numerator * (1 << FB)
+    n = (2 * n + fr.denominator) // (2 * fr.denominator)
+    return "(%s # %d)" % (("(%d)" % n) if n < 0 else str(n), 1 << FB)
+
+
 def clit(z):
     z = complex(z)
-    return "(%s, %s)" % (qlit(z.real), qlit(z.imag))
+    return "(%s, %s)" % (ql(z.real), ql(z.imag))
 
 
 def dy(rng, lo, hi, bits=6):
@@ -156,7 +168,7 @@ def stage_pupil(ctx):
             raise RuntimeError("Lens did not ask the wrapped theory for every quadrature node")
         tablit = listlit([listlit(["(%s, %s, %s, %s)" % (clit(m[0, 0]), clit(m[0, 1]), clit(m[1, 0]), clit(m[1, 1]))
                                    for m in row]) for row in tab])
-        kz = K * zd
+        kz = -K * zd          # positions z = k * (z_sphere - z_detector)
         eikz = np.exp(1j * kz)
         cg, sg = math.cos(g), math.sin(g)
         # observed polarisation angle is arctan2(py, px): the same double up to rounding
@@ -171,14 +183,14 @@ def stage_pupil(ctx):
                 for q in range(nph):
                     e1 = np.exp(1j * krho * st * math.cos(ppts[q] - php))
                     leaves.append("(%s, %s, %s, %s, %s, %s, %s, %s)" % (
-                        clit(e1), clit(e2), qlit(math.sqrt(ct)), qlit(st), qlit(float(pwts[q])), qlit(float(twts[p])),
-                        qlit(math.cos(ppts[q] - gobs)), qlit(math.sin(ppts[q] - gobs))))
+                        clit(e1), clit(e2), ql(math.sqrt(ct)), ql(st), ql(float(pwts[q])), ql(float(twts[p])),
+                        ql(math.cos(ppts[q] - gobs)), ql(math.sin(ppts[q] - gobs))))
             impl = "(%s, %s, %s)" % (clit(E[i, 0]), clit(E[i, 1]), clit(E[i, 2]))
             for lay in ("layout_fixed", "layout_asfound"):
                 exprs.append(
-                    "v3close tolc (lens_field QO (lens_terms QO %s %s (pupil_matrices (%s %s %s) (tab_of %s) %s %s)) %s %s %s) %s"
-                    % (qlit(0.5 / math.pi), listlit(leaves), lay, zlit(nth), zlit(nph), tablit, zlit(nth), zlit(nph),
-                       qlit(math.cos(gobs)), qlit(math.sin(gobs)), clit(eikz), impl))
+                    "v3close tolc (lens_field QF (lens_terms QF %s %s (pupil_matrices (%s %s %s) (tab_of %s) %s %s)) %s %s %s) %s"
+                    % (ql(0.5 / math.pi), listlit(leaves), lay, zlit(nth), zlit(nph), tablit, zlit(nth), zlit(nph),
+                       ql(math.cos(gobs)), ql(math.sin(gobs)), clit(eikz), impl))
             metas.append(dict(case=kcase, point=i, lens_angle=la, quad_npts_theta=nth, quad_npts_phi=nph, pol_angle=g,
                               kz=kz, x=xs[i], y=ys[i], impl=[[E[i, j].real, E[i, j].imag] for j in range(3)]))
         ctx.count("pupil:%s" % ("equal" if nth == nph else "unequal"))
@@ -259,8 +271,8 @@ def stage_calculator(ctx):
         if clist is not None:
             phase = phase + (qx - 1) ** 2 * legval(qx - 1, np.array(clist, float))
         es = np.exp(1j * phase)
-        nodes = listlit(["(%s, %s, %s, %s, %s, %s)" % (qlit(float(qx[i])), qlit(float(qw[i])), qlit(float(sint[i])),
-                                                       qlit(float(np.sqrt(qx[i]))), clit(sperp[i]), clit(sprll[i]))
+        nodes = listlit(["(%s, %s, %s, %s, %s, %s)" % (ql(float(qx[i])), ql(float(qw[i])), ql(float(sint[i])),
+                                                       ql(float(np.sqrt(qx[i]))), clit(sperp[i]), clit(sprll[i]))
                          for i in range(npts)])
         eslit = listlit([clit(e) for e in es])
         # the aberration phase polynomial: Coq's legval (numpy's Clenshaw loop) against numpy's legval
@@ -274,12 +286,12 @@ def stage_calculator(ctx):
                           phase=[float(v) for v in phase]))
         nphase += 1
         for r, ph, vx, vy in zip(rhos, phis, ex, ey):
-            js0 = listlit([qlit(float(v)) for v in j0(r * sint)])
-            js2 = listlit([qlit(float(v)) for v in mlf.j2(r * sint)])
+            js0 = listlit([ql(float(v)) for v in j0(r * sint)])
+            js2 = listlit([ql(float(v)) for v in mlf.j2(r * sint)])
             exprs.append(
-                "(let nodes := %s in let es := %s in let sc := mielens_scattered QO %s %s %s (i_n_sum QO 0 es %s nodes) "
-                "(i_n_sum QO 2 es %s nodes) %s %s in cclose tolc (fst sc) %s && cclose tolc (snd sc) %s)"
-                % (nodes, eslit, qlit(3.9), zlit(npts), qlit(r), js0, js2, qlit(math.cos(2 * ph)), qlit(math.sin(2 * ph)),
+                "(let nodes := %s in let es := %s in let sc := mielens_scattered QF %s %s %s (i_n_sum QF 0 es %s nodes) "
+                "(i_n_sum QF 2 es %s nodes) %s %s in cclose tolc (fst sc) %s && cclose tolc (snd sc) %s)"
+                % (nodes, eslit, qlit(3.9), zlit(npts), qlit(r), js0, js2, ql(math.cos(2 * ph)), ql(math.sin(2 * ph)),
                    clit(vx), clit(vy)))
             metas.append(dict(what="scattered", case=kcase, krho=r, phi=ph, kz=kz, index_ratio=m, size_parameter=xsz,
                               lens_angle=la, quad_npts=npts, coeffs=coeffs, impl=[[vx.real, vx.imag], [vy.real, vy.imag]]))
